@@ -5,7 +5,7 @@
 (* Objects (slots): lis - listener made from a local URL; cli - client made from a remote URL; acc - the      *)
 (* object returned by accept; cp - one copy (spif_socket_dup) of any of them.                                *)
 (* Kernel side: desc maps every descriptor the library has open to the socket it refers to (a socket stays    *)
-(* alive while some descriptor refers to it); lsock is the listening socket reachable through the path; pend   *)
+(* alive while some descriptor refers to it); lsock is the socket bound to the path (lstn: which sockets listen); pend   *)
 (* its queue of not yet accepted connections; conn records, per client socket, its listener, its accepted      *)
 (* peer and the bytes in flight in both directions.  This ghost part decides which calls succeed for real;     *)
 (* failures are injected at the named system call (the interposed call fails without reaching the kernel).     *)
@@ -25,7 +25,7 @@ CONSTANTS MaxD,       \* descriptors 1..MaxD (the lowest free one is handed out,
 VARIABLES obj,      \* slot -> [ex |-> BOOLEAN, fd |-> -1 or a descriptor]
           desc,     \* open descriptor -> socket
           ns,       \* sockets created so far
-          lsock,    \* listening socket bound to the path, 0 = none reachable
+          lsock,    \* socket bound to the path, 0 = none
           lstn,     \* set of sockets that are listening
           pend,     \* client sockets queued on lsock, oldest first
           conn      \* client socket -> [home, peer, toS, toC]
@@ -70,29 +70,56 @@ SetFd(x, d) == [obj EXCEPT ![x].fd = d]
 OpNew(x) == /\ x \in {"lis", "cli"} /\ ~obj[x].ex
             /\ Step("new", <<x>>, TRUE, [obj EXCEPT ![x] = [ex |-> TRUE, fd |-> -1]], desc, ns, lsock, lstn, pend, conn)
 
-\* open is offered on an object that holds no descriptor (fresh, or closed before).  The driver removes the path
-\* before every listener open, so whatever was bound there is unreachable afterwards.
+\* something listens behind the path: a client's connect() gets through
+ListenerUp == lsock # 0 /\ lsock \in lstn /\ Alive(lsock)
+\* open of the listener.
+\*  - The object holds no descriptor (fresh, closed before, or its last open failed in socket()): socket(), bind(), listen().
+\*    The driver removes the path first, so whatever was bound there is unreachable afterwards; lsock = the socket bound
+\*    to the path now ("listen": bound but not listening; "socket"/"bind": nothing bound).
+\*  - The object still holds the descriptor of an earlier open (which failed in bind() or listen(), or succeeded): open
+\*    must NOT create another descriptor; it goes straight to listen() on the one it has: "ok" if that socket is bound
+\*    to the path, "unbound" = the kernel refuses listen() on a socket whose bind() failed, "listen" = injected failure.
 OpOpenLis(out) ==
-    /\ obj["lis"].ex /\ obj["lis"].fd = -1 /\ out \in {"ok", "socket", "bind", "listen"}
-    /\ IF out = "socket"
-       THEN Step("open", <<"lis", out>>, FALSE, obj, desc, ns, 0, lstn, <<>>, conn)
-       ELSE /\ FreeD # {} /\ ns < MaxS
-            /\ LET d == NewD  s == ns + 1 IN
-               Step("open", <<"lis", out>>, out = "ok", SetFd("lis", d), WithDesc(desc, d, s), s,
-                    IF out = "ok" THEN s ELSE 0, IF out = "ok" THEN lstn \cup {s} ELSE lstn, <<>>, conn)
-\* "nolistener" is the kernel's own refusal: nothing listens behind the path
+    /\ obj["lis"].ex /\ out \in {"ok", "socket", "bind", "listen", "unbound"}
+    /\ IF obj["lis"].fd = -1
+       THEN /\ out # "unbound"
+            /\ IF out = "socket"
+               THEN Step("open", <<"lis", out>>, FALSE, obj, desc, ns, 0, lstn, <<>>, conn)
+               ELSE /\ FreeD # {} /\ ns < MaxS
+                    /\ LET d == NewD  s == ns + 1 IN
+                       Step("open", <<"lis", out>>, out = "ok", SetFd("lis", d), WithDesc(desc, d, s), s,
+                            IF out = "bind" THEN 0 ELSE s, IF out = "ok" THEN lstn \cup {s} ELSE lstn, <<>>, conn)
+       ELSE LET s == SockOf("lis") IN
+            /\ out \in {"ok", "listen", "unbound"}
+            /\ (out = "unbound") = (out # "listen" /\ s # lsock)
+            /\ Step("open", <<"lis", out>>, out = "ok", obj, desc, ns, lsock,
+                    IF out = "ok" THEN lstn \cup {s} ELSE lstn, pend, conn)
+\* open of the client: socket() unless the object still holds a descriptor, then connect().
+\* "nolistener" is the kernel's own refusal (nothing listens behind the path), "isconn" its refusal to connect a
+\* connected socket again; "socket" / "connect" are injected failures.
 OpOpenCli(out) ==
-    /\ obj["cli"].ex /\ obj["cli"].fd = -1 /\ out \in {"ok", "socket", "connect", "nolistener"}
-    /\ (out = "nolistener") = (out \notin {"socket", "connect"} /\ ~(lsock # 0 /\ Alive(lsock)))
-    /\ (out = "ok") => (lsock # 0 /\ Alive(lsock) /\ Len(pend) < 4)
-    /\ IF out = "socket"
-       THEN Step("open", <<"cli", out>>, FALSE, obj, desc, ns, lsock, lstn, pend, conn)
-       ELSE /\ FreeD # {} /\ ns < MaxS
-            /\ LET d == NewD  s == ns + 1 IN
-               IF out = "ok"
-               THEN Step("open", <<"cli", out>>, TRUE, SetFd("cli", d), WithDesc(desc, d, s), s, lsock, lstn, Append(pend, s),
+    /\ obj["cli"].ex /\ out \in {"ok", "socket", "connect", "nolistener", "isconn"}
+    /\ IF obj["cli"].fd = -1
+       THEN /\ out # "isconn"
+            /\ (out = "nolistener") = (out \notin {"socket", "connect"} /\ ~ListenerUp)
+            /\ (out = "ok") => Len(pend) < 4
+            /\ IF out = "socket"
+               THEN Step("open", <<"cli", out>>, FALSE, obj, desc, ns, lsock, lstn, pend, conn)
+               ELSE /\ FreeD # {} /\ ns < MaxS
+                    /\ LET d == NewD  s == ns + 1 IN
+                       IF out = "ok"
+                       THEN Step("open", <<"cli", out>>, TRUE, SetFd("cli", d), WithDesc(desc, d, s), s, lsock, lstn, Append(pend, s),
+                                 [c \in (DOMAIN conn) \cup {s} |-> IF c = s THEN [home |-> lsock, peer |-> 0, toS |-> 0, toC |-> 0] ELSE conn[c]])
+                       ELSE Step("open", <<"cli", out>>, FALSE, SetFd("cli", d), WithDesc(desc, d, s), s, lsock, lstn, pend, conn)
+       ELSE LET s == SockOf("cli") IN
+            /\ out # "socket"
+            /\ (out = "isconn") = (s \in DOMAIN conn)
+            /\ (out = "nolistener") = (out # "connect" /\ s \notin DOMAIN conn /\ ~ListenerUp)
+            /\ (out = "ok") => Len(pend) < 4
+            /\ IF out = "ok"
+               THEN Step("open", <<"cli", out>>, TRUE, obj, desc, ns, lsock, lstn, Append(pend, s),
                          [c \in (DOMAIN conn) \cup {s} |-> IF c = s THEN [home |-> lsock, peer |-> 0, toS |-> 0, toC |-> 0] ELSE conn[c]])
-               ELSE Step("open", <<"cli", out>>, FALSE, SetFd("cli", d), WithDesc(desc, d, s), s, lsock, lstn, pend, conn)
+               ELSE Step("open", <<"cli", out>>, FALSE, obj, desc, ns, lsock, lstn, pend, conn)
 
 \* accept: "ok" needs a queued connection (the listener is blocking); "eintr" = accept() fails with EINTR;
 \* "bad" = the listener holds no listening descriptor (closed, or its open failed): the kernel refuses
@@ -180,8 +207,8 @@ OpDel(x) ==
 
 Init == /\ obj = [x \in Slots |-> NoObj] /\ desc = <<>> /\ ns = 0 /\ lsock = 0 /\ lstn = {} /\ pend = <<>> /\ conn = <<>>
 Next == \/ \E x \in Slots : OpNew(x) \/ OpRecv(x) \/ OpDup(x) \/ OpDel(x)
-        \/ \E out \in {"ok", "socket", "bind", "listen"} : OpOpenLis(out)
-        \/ \E out \in {"ok", "socket", "connect", "nolistener"} : OpOpenCli(out)
+        \/ \E out \in {"ok", "socket", "bind", "listen", "unbound"} : OpOpenLis(out)
+        \/ \E out \in {"ok", "socket", "connect", "nolistener", "isconn"} : OpOpenCli(out)
         \/ \E out \in {"ok", "eintr", "bad"} : OpAccept(out)
         \/ \E x \in Slots, out \in {"ok", "epipe", "reset", "badfd", "notconn", "peerdead"} : OpSend(x, out)
         \/ \E x \in Slots, out \in {"ok", "eintr"} : OpClose(x, out)
